@@ -527,3 +527,7 @@ def replay(path):
         print("VIOLATION property=%s replay=%s" % (PROP, path))
         print("  sig=%s :: %s" % (v["sig"], v["msg"][:300]))
     return 1 if res.violations else 0
+
+
+# (what later rounds of seeded changes added to the workload; part of the evidence's description of the check)
+RULE += "; " + "a conditional PUT pre-empted at each of its file-system steps in turn while an unconditional PUT of the same resource runs to completion (WSGI application in two threads under the deterministic scheduler): both answered 2xx => the resource ends with the unconditional one's content"
